@@ -278,11 +278,14 @@ def check_typed_fields(chk, rule, rr: ReaderRecord):
     return n
 
 
-def converter_names(expr: ast.AST) -> Set[str]:
+def converter_names(expr: ast.AST, mod=None, depth: int = 2) -> Set[str]:
     out = set()
     for n in ast.walk(expr):
         if isinstance(n, ast.Call):
             out.add(ast.unparse(n.func))
+            # look through a helper function of the reader module (e.g. a per-trick converter that was extracted)
+            if mod is not None and depth > 0 and isinstance(n.func, ast.Name) and n.func.id in mod.functions:
+                out |= converter_names(mod.functions[n.func.id], mod, depth - 1)
         if isinstance(n, ast.Subscript) and isinstance(n.value, ast.Name) and n.value.id[:1].isupper():
             out.add(n.value.id + '[]')
     return out
@@ -311,12 +314,12 @@ def check_converters(chk, rule, repo, mod, qual, fields, annots, inline=None):
         ann = annots.get(fld)
         if ann is None or (isinstance(expr, ast.Constant) and expr.value is None):
             continue
-        used = converter_names(expr)
+        used = converter_names(expr, mod)
         if inline is not None:
             for n in ast.walk(expr):
                 if isinstance(n, ast.Attribute) and isinstance(n.value, ast.Call) and ast.unparse(n.value.func) == 'convert_board_setting' \
                         and n.attr in inline.fields:
-                    used |= converter_names(inline.fields[n.attr])
+                    used |= converter_names(inline.fields[n.attr], mod)
         for leaf in sorted(leaves(ann)):
             if leaf not in TYPE_CONVERTER:
                 continue
